@@ -10,7 +10,7 @@
    absent (not admitted) — see notes/ALGO_design.md for the exact state. *)
 From Coq Require Import NArith List Bool.
 From CS Require Import Sx Str PathModel StateModel StateProofs ProvModel AlgoModel AlgoCheck AlgoProofs AlgoState AlgoProv AlgoInv AlgoInit AlgoQuiet AlgoIntake
-     AlgoSync AlgoLatest AlgoFinish AlgoSyncEntry AlgoStep AlgoUser AlgoCalls AlgoRun AlgoTotal.
+     AlgoSync AlgoLatest AlgoFinish AlgoSyncEntry AlgoStep AlgoUser AlgoCalls AlgoRun AlgoTotal AlgoSpec.
 Import ListNotations.
 Local Open Scope N_scope.
 
@@ -221,6 +221,37 @@ Theorem ALGO_quiescent_equal : forall t0 lg0 acts w,
 Proof. exact algo_quiescent_equal. Qed.
 Print Assumptions ALGO_quiescent_equal.
 
+(* ---- the quiescent trees are the specification (C01 / C02 / C03 at quiet) ---------------------------------------- *)
+(* [spec_L h] / [spec_R h]: the files the LOCAL / REMOTE user made and still has after history h, each with the contents
+   written to it, latest first - a function of the history alone ([dom_after], the bookkeeping of the domain predicate).
+   [in_lv lv rel d]: lv lists file rel with d as its latest content.  For every in-domain history and every schedule:
+   a quiescent world holds on BOTH sides exactly these files with exactly these contents - nothing lost, nothing invented,
+   nothing else (no conflict copies, no folders). *)
+Theorem ALGO_quiescent_spec : forall t0 lg0 acts w,
+  lg0 <= t0 + 1 -> in_F1 (cfg_std 1) (history_of acts) = true ->
+  algo_run (world_init (cfg_std 1) t0 lg0) acts = ROk w -> quiescent w = true ->
+  forall sd rel kd d, In (rel, (kd, d)) (rel_view w sd) <->
+                      (kd = ProvModel.KFile /\ (in_lv (spec_L (history_of acts)) rel d \/ in_lv (spec_R (history_of acts)) rel d)).
+Proof. exact algo_quiescent_spec. Qed.
+Print Assumptions ALGO_quiescent_spec.
+
+(* C02 at every moment, not only at quiet: whatever the engine is doing, a file a user made and still has is live on
+   that user's own side with the content the user wrote last *)
+Theorem ALGO_own_files_kept : forall t0 lg0 acts w,
+  lg0 <= t0 + 1 -> in_F1 (cfg_std 1) (history_of acts) = true ->
+  algo_run (world_init (cfg_std 1) t0 lg0) acts = ROk w ->
+  forall rel d, (in_lv (spec_L (history_of acts)) rel d -> In (rel, (ProvModel.KFile, d)) (rel_view w false)) /\
+                (in_lv (spec_R (history_of acts)) rel d -> In (rel, (ProvModel.KFile, d)) (rel_view w true)).
+Proof. exact algo_own_files_kept. Qed.
+Print Assumptions ALGO_own_files_kept.
+
+(* the same from any world satisfying the invariant and linked to the bookkeeping *)
+Theorem ALGO_quiescent_is_spec : forall used lvL lvR g w,
+  Inv g w -> Dom used lvL lvR g w -> quiescent w = true ->
+  forall sd rel kd d, In (rel, (kd, d)) (rel_view w sd) <-> (kd = ProvModel.KFile /\ (in_lv lvL rel d \/ in_lv lvR rel d)).
+Proof. exact quiescent_is_spec. Qed.
+Print Assumptions ALGO_quiescent_is_spec.
+
 (* ---- where the model can answer OutOfFragment ---------------------------------------------------------------- *)
 (* The theorems above are about runs on which the model answers ROk.  The model has 28 OutOfFragment codes plus the
    error results of the SyncState operations (assertion failures, KeyError ...).  On in-domain runs under ANY schedule
@@ -348,6 +379,10 @@ Proof.
     clear E. vm_compute in Hw. injection Hw as -> ->. split; reflexivity.
   - exfalso. vm_compute in E. discriminate.
 Qed.
+(* the specification of that run: LOCAL's user has f with contents 4 (then 3, 2) and g with content 1; REMOTE's has none *)
+Example ALGO_ex_spec :
+  spec_L (history_of conv_actions) = [([[102]], [4; 3; 2]); ([[103]], [1])] /\ spec_R (history_of conv_actions) = [].
+Proof. split; reflexivity. Qed.
 (* the domain of F1 is inhabited by histories that make the engine work *)
 Example ALGO_ex_domain : in_F1 (cfg_std 1) [(false, UCreate [[102]] 2); (true, UCreate [[103]] 1); (false, UWrite [[102]] 3); (false, UDelete [[102]])] = true.
 Proof. reflexivity. Qed.
